@@ -1,0 +1,42 @@
+// Copyright (c) 2021 Uber Technologies, Inc.
+//
+// Permission is hereby granted, free of charge, to any person obtaining a copy
+// of this software and associated documentation files (the "Software"), to deal
+// in the Software without restriction, including without limitation the rights
+// to use, copy, modify, merge, publish, distribute, sublicense, and/or sell
+// copies of the Software, and to permit persons to whom the Software is
+// furnished to do so, subject to the following conditions:
+//
+// The above copyright notice and this permission notice shall be included in
+// all copies or substantial portions of the Software.
+//
+// THE SOFTWARE IS PROVIDED "AS IS", WITHOUT WARRANTY OF ANY KIND, EXPRESS OR
+// IMPLIED, INCLUDING BUT NOT LIMITED TO THE WARRANTIES OF MERCHANTABILITY,
+// FITNESS FOR A PARTICULAR PURPOSE AND NONINFRINGEMENT. IN NO EVENT SHALL THE
+// AUTHORS OR COPYRIGHT HOLDERS BE LIABLE FOR ANY CLAIM, DAMAGES OR OTHER
+// LIABILITY, WHETHER IN AN ACTION OF CONTRACT, TORT OR OTHERWISE, ARISING FROM,
+// OUT OF OR IN CONNECTION WITH THE SOFTWARE OR THE USE OR OTHER DEALINGS IN
+// THE SOFTWARE.
+
+package goast
+
+import (
+	"fmt"
+	"go/format"
+	"go/token"
+	"io"
+)
+
+// Format formats the node like format.Node does.
+//
+// go/printer panics when it comes across a tree that cannot be valid Go, for
+// example a method-less field in an interface. A patch can ask for such a
+// tree. That is an error of the patch, not a reason to crash.
+func Format(dst io.Writer, fset *token.FileSet, node any) (err error) {
+	defer func() {
+		if r := recover(); r != nil {
+			err = fmt.Errorf("result cannot be printed: %v", r)
+		}
+	}()
+	return format.Node(dst, fset, node)
+}
